@@ -333,7 +333,7 @@ class Engine:
 
 class PathRecord:
     __slots__ = ("n", "status", "detail", "claims", "reached", "observed_sym", "observed",
-                 "model", "feasible", "decisions", "want_model", "reach_models")
+                 "model", "feasible", "decisions", "want_model", "reach_models", "sub")
 
     def __init__(self, n):
         self.n = n
@@ -1027,6 +1027,12 @@ class SFloat:
         self.zint = zint
 
     @staticmethod
+    def ratio(n, d):
+        """the correctly rounded quotient of two exact integers (int / int true division)"""
+        r = SFloat(n, 1)
+        return r._rounded(n, d, 0, 0, True)
+
+    @staticmethod
     def of(x):
         if isinstance(x, SFloat):
             return x
@@ -1205,7 +1211,13 @@ class SFloat:
         if self.exact():
             return q
         if max(abs(self.elo), abs(self.ehi)) * self.d >= 1:
-            raise Unmodelled("float error too large to decide floor")
+            # error spans several integers: any k with  k <= n/d + ehi  and  k + 1 > n/d + elo  (sound over-approximation)
+            lo, hi = self.nbounds()
+            D = self.d
+            E_hi, E_lo = _ceil_frac(self.ehi * D), _floor_frac(self.elo * D)
+            k = fresh_int("flr", (lo + E_lo) // D - 1, (hi + E_hi) // D + 1)
+            eng().assume(AND(k * D <= self.n + E_hi, (k + 1) * D > self.n + E_lo))
+            return k
         adj_down = self.elo < 0 and not (self.zint)
         if self.elo < 0 and self.zint:
             # eps may only push below an integer if n/d is integral, where eps == 0
@@ -1313,7 +1325,11 @@ class SFloat:
         if elo == 0 and ehi == 0:
             return _icmp(m, 0, op)
         if max(abs(elo), abs(ehi)) >= 1:
-            raise Unmodelled("float error too large to decide comparison")
+            # the rounding error spans whole units of the comparison: decided where it cannot matter, free otherwise
+            E_lo, E_hi = _floor_frac(Fraction(elo)), _ceil_frac(Fraction(ehi))
+            lo_v, hi_v = op(m + E_lo, 0), op(m + E_hi, 0)
+            sure_true, sure_false = AND(lo_v, hi_v), AND(NOT(lo_v), NOT(hi_v))
+            return OR(sure_true, AND(NOT(sure_false), sym_bool_internal("fcmp")))
         # m != 0 -> sign decided by m ; m == 0 -> by eps
         zero_ok = (self.zint and o.exact() and o.d == 1) or (o.zint and self.exact() and self.d == 1)
         at0 = op(0, 0)
